@@ -38,7 +38,11 @@ func cleanupTmp() {
 
 // newEngine builds the engine named by `engine=` (memkv|badger|tikv, optionally prefixed "metrics-"),
 // with real region splits for tikv given by `regions=<hex,hex>`.
-func newEngine(opts map[string]string) storage.KvStorage {
+func newEngine(opts map[string]string) storage.KvStorage { return newEngineUnder(opts, nil) }
+
+// newEngineUnder: `under`, when given, wraps the bare engine BELOW the storage-metrics wrapper (so that
+// injected engine failures travel through the wrapper as real ones would).
+func newEngineUnder(opts map[string]string, under func(storage.KvStorage) storage.KvStorage) storage.KvStorage {
 	name := opts["engine"]
 	if name == "" {
 		name = "memkv"
@@ -84,6 +88,9 @@ func newEngine(opts map[string]string) storage.KvStorage {
 		panic("unknown engine " + name)
 	}
 	if wrapMetrics {
+		if under != nil {
+			kv = under(kv)
+		}
 		kv = imetrics.NewKvStorage(kv, getMetrics())
 	}
 	return kv
